@@ -529,6 +529,33 @@ const (
 	LockOnly                            // RESERVED taken and released without writing
 )
 
+// busy-timeout like SQLite's: other lock holders (snapshots being streamed, internal writers) come and go
+func retry(f func() bool) bool {
+	deadline := time.Now().Add(3 * time.Second)
+	for {
+		if f() {
+			return true
+		}
+		if time.Now().After(deadline) {
+			return false
+		}
+		time.Sleep(200 * time.Microsecond)
+	}
+}
+
+func (p *Pager) rlock(t litefs.LockType) bool {
+	return retry(func() bool { return p.DB.TryRLocks(ctx, p.Owner, []litefs.LockType{t}) })
+}
+func (p *Pager) xlock(t litefs.LockType) (bool, error) {
+	var err error
+	ok := retry(func() bool {
+		var ok bool
+		ok, err = p.DB.TryLocks(ctx, p.Owner, []litefs.LockType{t})
+		return ok || err != nil
+	})
+	return ok && err == nil, err
+}
+
 // RunRollbackTx issues the pager's operation sequence for one rollback-journal
 // transaction against the DB API exactly as the FUSE handlers would.
 // prev is the image before the transaction (pre-images for the journal).
@@ -536,10 +563,10 @@ func (p *Pager) RunRollbackTx(prev *Image, tx Tx, jm JournalMode, outcome Rollba
 	db, o := p.DB, p.Owner
 	ps := p.PageSize
 	// SHARED
-	if !db.TryRLocks(ctx, o, []litefs.LockType{litefs.LockTypePending}) {
+	if !p.rlock(litefs.LockTypePending) {
 		return errors.New("busy: pending")
 	}
-	if !db.TryRLocks(ctx, o, []litefs.LockType{litefs.LockTypeShared}) {
+	if !p.rlock(litefs.LockTypeShared) {
 		_ = db.Unlock(ctx, o, []litefs.LockType{litefs.LockTypePending})
 		return errors.New("busy: shared")
 	}
@@ -548,7 +575,7 @@ func (p *Pager) RunRollbackTx(prev *Image, tx Tx, jm JournalMode, outcome Rollba
 		_ = db.Unlock(ctx, o, []litefs.LockType{litefs.LockTypePending, litefs.LockTypeReserved, litefs.LockTypeShared})
 	}
 	// RESERVED
-	if ok, err := db.TryLocks(ctx, o, []litefs.LockType{litefs.LockTypeReserved}); err != nil || !ok {
+	if ok, err := p.xlock(litefs.LockTypeReserved); err != nil || !ok {
 		unlockAll()
 		return fmt.Errorf("busy: reserved (%v)", err)
 	}
@@ -642,12 +669,12 @@ func (p *Pager) RunRollbackTx(prev *Image, tx Tx, jm JournalMode, outcome Rollba
 		return err
 	}
 	// EXCLUSIVE
-	if ok, err := db.TryLocks(ctx, o, []litefs.LockType{litefs.LockTypePending}); err != nil || !ok {
+	if ok, err := p.xlock(litefs.LockTypePending); err != nil || !ok {
 		_ = finalize()
 		unlockAll()
 		return fmt.Errorf("busy: pending-x (%v)", err)
 	}
-	if ok, err := db.TryLocks(ctx, o, []litefs.LockType{litefs.LockTypeShared}); err != nil || !ok {
+	if ok, err := p.xlock(litefs.LockTypeShared); err != nil || !ok {
 		_ = finalize()
 		unlockAll()
 		return fmt.Errorf("busy: shared-x (%v)", err)
@@ -770,13 +797,13 @@ func (p *Pager) bo() binary.ByteOrder {
 func (p *Pager) BeginWALWrite() error {
 	db, o := p.DB, p.Owner
 	p.EnsureWAL()
-	if !db.TryRLocks(ctx, o, []litefs.LockType{litefs.LockTypeDMS}) {
+	if !p.rlock(litefs.LockTypeDMS) {
 		return errors.New("busy: dms")
 	}
-	if !db.TryRLocks(ctx, o, []litefs.LockType{litefs.LockTypeRead1}) {
+	if !p.rlock(litefs.LockTypeRead1) {
 		return errors.New("busy: read1")
 	}
-	if ok, err := db.TryLocks(ctx, o, []litefs.LockType{litefs.LockTypeWrite}); err != nil || !ok {
+	if ok, err := p.xlock(litefs.LockTypeWrite); err != nil || !ok {
 		_ = db.Unlock(ctx, o, []litefs.LockType{litefs.LockTypeRead1})
 		return fmt.Errorf("busy: write (%v)", err)
 	}
